@@ -333,15 +333,23 @@ def run(p: Program, rep: Report, tier: str) -> None:
         eff = helper_effects(fn)
         # what happens for an event of each kind, decided on the paths of one loop iteration (mp_iter)
         from .mp_iter import helper_rules
+        loop_unknown = False
         for rule_, kind_, cons_, msg_ in helper_rules(p, name, fn):
             if rule_ != "R1.4":
                 continue
+            if kind_ == "undecided" and "event loop not understood" in msg_:
+                loop_unknown = True
             if kind_ == "ok":
                 rep.ok("R1.4", msg_)
             elif kind_ == "undecided":
                 rep.undecide("R1.4", msg_)
             else:
                 rep.violation("R1.4", construct(fn, text=cons_), where(fn), msg_)
+        if loop_unknown:
+            # the helper's event loop is not in a recognised form (driven through a generator / state object ...): the statements the
+            # clauses below look for live somewhere the rule does not see - not decided, rather than reported missing
+            rep.undecide("R1.4", f"{name}: chunk feeding and the returned list are not checked because the event loop is not understood")
+            continue
         rc = [e for e in eff if e.kind == "call" and e.text == "parser.receive_data(chunk)"]
         if not rc:
             rep.violation("R1.4", construct(fn, text="receive_data"), where(fn), f"{name}: chunks are not fed to the decoder")
@@ -509,6 +517,9 @@ def last_newline_shape(p: Program, rep: Report, rule: str) -> None:
                 seen.add(("bad",))
         elif v[0] == "call" and v[1] == ("builtin", "max"):
             rep.violation(rule, construct(ln, text="max(last_nl, last_cr)"), where(ln), "last_newline returns the LATER of the last CR / last LF: a delimiter whose CR is already buffered is emitted as data when the LF arrives in the next chunk")
+            seen.add(("bad",))
+        elif v[0] == "call" and v[1] == ("builtin", "min"):
+            rep.undecide(rule, f"last_newline: a minimum in an unrecognised form: {show(v)[:90]}")
             seen.add(("bad",))
         else:
             rep.violation(rule, construct(ln, text=f"return {show(v)[:60]}"), where(ln), "last_newline is not the minimum of the last LF index and the last CR index (each defaulting to len(buffer))")
